@@ -27,7 +27,7 @@ var templates = []string{
 	"hard_missing_target", "hard_dup_name", "hard_missing_parent", "hard_to_root", "hard_double_slash", "hard_empty",
 	"soft_empty_target", "soft_dup", "soft_missing_parent", "ext_dotdot", "ext_empty_file", "ext_dup", "ext_missing_parent",
 	"dense_missing_target", "dense_dup", "grouplinks",
-	"write_wrong_type", "write_wrong_len", "write_nil", "writeraw_wrong_len",
+	"write_wrong_type", "write_wrong_len", "write_nil", "writeraw_wrong_len", "vlen_too_many", "vlen_too_few", "vlen_wrong_type", "vlen_too_many", "vlen_too_few",
 	"resize_not_chunked", "resize_not_resizable", "resize_wrong_rank", "resize_beyond_max", "resize_zero",
 	"attr_nil", "attr_empty_slice", "attr_int", "attr_bool", "attr_struct", "attr_int8_slice", "attr_huge_string", "delattr_absent",
 	"group_attr_nil", "group_33rd_child", "group_name_heap_full",
@@ -49,12 +49,18 @@ var objPaths = []string{"/c", "/r", "/k", "/g", "/g/in", "/h"}
 
 func setup() []hist.Op {
 	return []hist.Op{
-		{K: "dataset", Path: "/c", D: &hist.DSpec{Type: "i32", Dims: []uint64{4}}},                                                                   // contiguous
-		{K: "dataset", Path: "/r", D: &hist.DSpec{Type: "f64", Dims: []uint64{4}, Chunk: []uint64{2}, MaxDims: []uint64{8}}},                            // resizable up to 8
-		{K: "dataset", Path: "/k", D: &hist.DSpec{Type: "u8", Dims: []uint64{3, 2}, Chunk: []uint64{2, 2}}},                                             // chunked, not resizable
+		{K: "dataset", Path: "/c", D: &hist.DSpec{Type: "i32", Dims: []uint64{4}}},                                           // contiguous
+		{K: "dataset", Path: "/r", D: &hist.DSpec{Type: "f64", Dims: []uint64{4}, Chunk: []uint64{2}, MaxDims: []uint64{8}}}, // resizable up to 8
+		{K: "dataset", Path: "/k", D: &hist.DSpec{Type: "u8", Dims: []uint64{3, 2}, Chunk: []uint64{2, 2}}},                  // chunked, not resizable
 		{K: "group", Path: "/g"},
 		{K: "dataset", Path: "/g/in", D: &hist.DSpec{Type: "i16", Dims: []uint64{2}}},
 		{K: "group", Path: "/h"},
+		// one small dataset per variable-length type (two elements each)
+		{K: "dataset", Path: "/v0", D: &hist.DSpec{Type: "vl:str", Dims: []uint64{2}}}, {K: "dataset", Path: "/v1", D: &hist.DSpec{Type: "vl:i32", Dims: []uint64{2}}},
+		{K: "dataset", Path: "/v2", D: &hist.DSpec{Type: "vl:i64", Dims: []uint64{2}}}, {K: "dataset", Path: "/v3", D: &hist.DSpec{Type: "vl:u32", Dims: []uint64{2}}},
+		{K: "dataset", Path: "/v4", D: &hist.DSpec{Type: "vl:u64", Dims: []uint64{2}}}, {K: "dataset", Path: "/v5", D: &hist.DSpec{Type: "vl:f32", Dims: []uint64{2}}},
+		{K: "dataset", Path: "/v6", D: &hist.DSpec{Type: "vl:f64", Dims: []uint64{2}, Chunk: []uint64{1}}},
+		{K: "write", Path: "/v0", Seed: 11}, {K: "write", Path: "/v3", Seed: 12}, {K: "write", Path: "/v6", Seed: 13},
 		{K: "write", Path: "/c", Seed: 1, Mode: hist.ModeSeq}, {K: "write", Path: "/r", Seed: 2, Mode: hist.ModeSeq},
 		{K: "write", Path: "/k", Seed: 3, Mode: hist.ModeSeq}, {K: "write", Path: "/g/in", Seed: 4, Mode: hist.ModeSeq},
 	}
@@ -249,6 +255,37 @@ func bad(ex *hist.Exec, tmpl string, tgt int) (err error, applicable bool) {
 			return h.Write([]int32{1, 2, 3, 4, 5}), true
 		}
 		return nil, false
+	case "vlen_too_many", "vlen_too_few", "vlen_wrong_type":
+		vp := fmt.Sprintf("/v%d", ((tgt%7)+7)%7)
+		h := ds(vp)
+		if h == nil {
+			return nil, false
+		}
+		n := 3 // the datasets hold two elements
+		if tmpl == "vlen_too_few" {
+			n = 1
+		}
+		var v any
+		switch vp {
+		case "/v0":
+			v = make([]string, n)
+		case "/v1":
+			v = make([][]int32, n)
+		case "/v2":
+			v = make([][]int64, n)
+		case "/v3":
+			v = make([][]uint32, n)
+		case "/v4":
+			v = make([][]uint64, n)
+		case "/v5":
+			v = make([][]float32, n)
+		default:
+			v = make([][]float64, n)
+		}
+		if tmpl == "vlen_wrong_type" {
+			v = []int32{1, 2}
+		}
+		return h.Write(v), true
 	case "write_nil":
 		if h := ds(tp); h != nil {
 			return h.Write(nil), true
@@ -398,14 +435,24 @@ func run(c Case) vt.Verdict {
 		// calls on a closed writer must return errors, not panic
 		var perr string
 		for name, f := range map[string]func() error{
-			"CreateDataset": func() error { _, e := ex.FW.CreateDataset("/after", hdf5.Int32, []uint64{1}); return e },
-			"CreateGroup":   func() error { _, e := ex.FW.CreateGroup("/afterg"); return e },
+			"CreateDataset":  func() error { _, e := ex.FW.CreateDataset("/after", hdf5.Int32, []uint64{1}); return e },
+			"CreateGroup":    func() error { _, e := ex.FW.CreateGroup("/afterg"); return e },
 			"CreateHardLink": func() error { return ex.FW.CreateHardLink("/afterl", "/c") },
 			"Write": func() error {
 				if h := ex.DS[ex.M.Resolve("/c").ID]; h != nil {
 					return h.Write([]int32{1, 2, 3, 4})
 				}
 				return fmt.Errorf("n/a")
+			},
+			"Write(vlen)": func() error {
+				for i, v := range []any{[]string{"a", "b"}, [][]int32{{1}, {2}}, [][]int64{{1}, {2}}, [][]uint32{{1}, {2}}, [][]uint64{{1}, {2}}, [][]float32{{1}, {2}}, [][]float64{{1}, {2}}} {
+					if o := ex.M.Resolve(fmt.Sprintf("/v%d", i)); o != nil && ex.DS[o.ID] != nil {
+						if e := ex.DS[o.ID].Write(v); e == nil {
+							return nil
+						}
+					}
+				}
+				return fmt.Errorf("all refused")
 			},
 			"WriteAttribute": func() error {
 				if h := ex.DS[ex.M.Resolve("/c").ID]; h != nil {
